@@ -19,6 +19,9 @@ import vlib  # noqa
 
 SD = "specs/collfs"
 PKG = "sdk/go/arvados"
+# VERIF_SKIP_MC=1 skips the (repo-independent) exhaustive model checking stage; meant for mutation
+# experiments on the code, where only RUN + JUDGE can change.
+SKIP_MC = os.environ.get("VERIF_SKIP_MC") == "1"
 FLUSHES = ["none", "flushall", "flushlong", "flushdir", "marshal", "sync", "mixed"]
 NAMES = ["a", "b", "d"]
 PATHS = [[n] for n in NAMES] + [[m, n] for m in ("a", "d") for n in NAMES]
@@ -141,6 +144,44 @@ def judge_fast(ctx, specdirs, module, cfg, events, scenario_of=None, timeout=900
     return total - len(rejected)
 
 
+def run_driver(ctx, pkg, overlay_map, run, scenarios, env=None, **kw):
+    """ctx.go_run_driver, except that a CRASH of the test process caused by the code under test - an
+    unrecovered panic (or a runtime-proven deadlock) on a goroutine whose innermost arvados frame
+    is in the package's own source, not in the injected harness - is turned into a one-event trace
+    {"ev":"panic"|"deadlock"} for the scenario announced last ("VERIF-SCN <id>" on stderr), which
+    no contract has an action for.  (The recorded traces are lost with the process; the crash
+    itself is what gets judged.)  Any other failure stays an infrastructure error."""
+    import os as _os
+    import re as _re
+    ctx.nrun += 1
+    sp = _os.path.join(ctx.scratch, "scn%d.ndjson" % ctx.nrun)
+    tp = _os.path.join(ctx.scratch, "trace%d.ndjson" % ctx.nrun)
+    vlib.write_ndjson(sp, scenarios)
+    e = dict(env or {})
+    e["VERIF_SCENARIOS"] = sp
+    e["VERIF_TRACES"] = tp
+    rc, out = ctx.go_test(pkg, overlay_map, run, env=e, **kw)
+    if "VERIF-DRIVER-DONE" in out and _os.path.exists(tp):
+        return vlib.read_ndjson(tp), out
+    lines = out.splitlines()
+    scn = None
+    for i, ln in enumerate(lines):
+        m = _re.match(r"VERIF-SCN (\d+)", ln)
+        if m:
+            scn = int(m.group(1))
+        kind = None
+        if ln.startswith("panic: ") or ln.startswith("fatal error: "):
+            kind = "deadlock" if "all goroutines are asleep" in ln else "panic"
+        if kind and scn:
+            frames = [x.strip().split(" ")[0] for x in lines[i:i + 80] if x.strip().startswith("/")]
+            top = next((f for f in frames if "/sdk/go/arvados/" in f), "")
+            if top and "zz_verif_" not in top:
+                ctx.log("driver process crashed in the code under test (%s at %s), scenario %s" % (ln[:120], top, scn))
+                return [{"ev": "reset", "scn": scn, "nodes": [{"k": "d", "e": {}}], "crash": True},
+                        {"ev": kind, "what": ln[:300], "at": top, "stack": "\n".join(lines[i:i + 30])[:2000]}], out
+    raise vlib.InfraError("driver %s %s did not complete (rc=%d):\n%s" % (pkg, run, rc, "\n".join(lines[-60:])))
+
+
 def kf_scenarios(sid0, seed):
     """Dedicated scenarios that re-confirm the known findings of C08 on every run (the general
     generators keep their triggers out so that no long trace is lost to them)."""
@@ -174,7 +215,7 @@ def build_scenarios(ctx, paths, rnd):
             scns.append({"id": sid, "mode": "steps", "ops": ops, "bs": rnd.choice([1, 1, 2, 2, 3, 4]),
                          "flush": rnd.choice(FLUSHES), "rseed": ctx.seed, "init": "empty", "gen": "tlc"})
     # long seeded random call sequences beyond the model's bounds
-    nrand = 240 if ctx.thorough else 30
+    nrand = 150 if ctx.thorough else 30
     nops = 400 if ctx.thorough else 200
     bss = [1, 2, 3, 4, 5, 7, 8, 13, 16, 31, 32, 64]
     for i in range(nrand):
@@ -195,7 +236,10 @@ def build_scenarios(ctx, paths, rnd):
 def run(ctx):
     rnd = random.Random(ctx.seed)
     # GEN (1): implementation-shaped segment model refines the byte-array contract
-    if os.environ.get("VERIF_DEV_SKIP_MC") != "1": ctx.tlc(SD, "CollFSFlush", "MC_CollFSFlush_C08_big.cfg" if ctx.thorough else "MC_CollFSFlush_C08.cfg",
+    if SKIP_MC:
+        ctx.log("VERIF_SKIP_MC=1: model checking stage skipped")
+    else:
+        ctx.tlc(SD, "CollFSFlush", "MC_CollFSFlush_C08_big.cfg" if ctx.thorough else "MC_CollFSFlush_C08.cfg",
             timeout=1500, label="exhaustive: segment-list model of Write/truncate/seek/Read/prune/flush refines the byte-array contract")
     # GEN (2): the contract explored by TLC: one call sequence per distinct reachable state
     paths, r = ctx.gen(SD, "CollFSGen", "Gen_CollFS_C08_big.cfg" if ctx.thorough else "Gen_CollFS_C08.cfg",
@@ -206,7 +250,7 @@ def run(ctx):
     ctx.extra["contract_states_reached_by_tlc"] = len(paths)
     paths = [p for p in paths if p["ops"]]
     paths.sort(key=lambda p: (len(p["ops"]), repr(p["ops"])))
-    limit = 40000 if ctx.thorough else 1000
+    limit = 8000 if ctx.thorough else 1000
     if len(paths) > limit:
         head = [p for p in paths if len(p["ops"]) <= 2]
         rest = [p for p in paths if len(p["ops"]) > 2]
@@ -217,7 +261,7 @@ def run(ctx):
     ctx.extra["scenarios"] = {"tlc_paths": len(paths), "total": len(scns)}
     # RUN
     ov = ctx.harness_overlay(PKG, "harness/C08_arvados")
-    events, out = ctx.go_run_driver(PKG, ov, "TestVerifC08$", scns, timeout=2400)
+    events, out = run_driver(ctx, PKG, ov, "TestVerifC08$", scns, timeout=2400)
     traces = vlib.split_traces(events)
     ctx.evaluations = len(traces)
     ctx.extra["events_judged"] = len(events)
